@@ -24,7 +24,8 @@ frame selections, categorical / NA / multiple keys, split_out 1|2, sort, observe
 outer / left / right on columns, index, mixed; suffixes, indicator, broadcast, shuffle_method), concat (axis 0 inner /
 outer with different columns, axis 1 co-aligned), set_index / sort_values / drop_duplicates / reset_index / shuffle /
 nlargest, rolling / cumulative / shift / diff / ffill / bfill, repartition (npartitions, divisions) / head / tail /
-sample / loc / partitions / dropna / map_partitions, and Index-valued programs.
+sample / loc / partitions / dropna / map_partitions, Index-valued programs, and astype / categorize programs (dict,
+series and frame targets incl. category, nullable and str dtypes).
 
 A dask exception while building or computing a program is NOT a C42 matter (the owning property C36-C40/C46 reports
 it): such cases are skipped as ``unsupported`` and counted (``dask_raised_owned_by_other_property``).
@@ -55,7 +56,7 @@ import warnings
 PROP = "C42"
 RULE = ("cases = (source, operation class, case seed); source c36 = a random C36 pipeline (2-5 row-wise/elementwise "
         "operations), source ops = one program of the forced class (reduction, groupby-agg, merge, concat, shuffle, window, "
-        "repartition, index) with random parameters; the seed also determines the frame (0-40 rows, 9 typed columns, 7 "
+        "repartition, index, astype) with random parameters; the seed also determines the frame (0-40 rows, 9 typed columns, 7 "
         "index kinds) and the partitioning (from_pandas npartitions|chunksize, from_map/from_delayed slices incl. empty "
         "partitions, cleared divisions); every case computes the whole result and every partition separately; "
         "non-trivial = result collection has >= 2 partitions or is a scalar of a >= 2-partition input; distinct = distinct "
@@ -131,7 +132,7 @@ PENDING = {
         'G3 cumsum/cumprod of an int64 column computes float64 (meta int64) - the C46 finding seen through the meta monitor',
 }
 
-OPS_CLASSES = ("reduction", "groupby-agg", "merge", "concat", "shuffle", "window", "repartition", "index")
+OPS_CLASSES = ("reduction", "groupby-agg", "merge", "concat", "shuffle", "window", "repartition", "index", "astype")
 
 
 def cases(tier, seed):
